@@ -11,7 +11,7 @@ search():     on the real code only, against exact Fraction / decimal references
               in years (births, deaths, fertility), coverage conversion, ageing over a year, sexual-network per-act compounding,
               and (statistical, labelled) event counts per year across dt.
 """
-import math, decimal
+import sys, math, decimal
 from fractions import Fraction as Fr
 import numpy as np
 from harness.props import c06
@@ -116,7 +116,7 @@ def death_table(rng):
     return pd.DataFrame(rows)
 
 
-def correspond(ctx):
+def correspond_round1(ctx):
     import starsim as ss
     rng = ctx.rng
     facts = (ctx.extracted.get('HazardExprs') or {}).get('facts') or {}
@@ -142,11 +142,11 @@ def correspond(ctx):
         done += 1
         tu, tdt = b.t.unit, b.t.dt
         p = births_prob(b)
-        add(f"timepar births {tok_unit(tu)} {tok_opt(tdt)} {tok_num(ru)} {tok_num(rel)} {tp_tokens(observe(b.pars.birth_rate))}", p,
+        add(f"timepar births {tok_unit(tu)} {tok_opt(tdt)} {tok_unit(sim.t.unit)} {tok_opt(sim.t.dt)} {tok_num(ru)} {tok_num(rel)} {tp_tokens(observe(b.pars.birth_rate))}", p,
             'Births.get_births (TimePar rate)', dict(kind='births', form='timepar', **cfg), nontrivial=True)
         x = rng.choice([25.0, 10, 0.5, 1200, 33.3])
         b.pars.birth_rate = x
-        add(f"number births {tok_unit(tu)} {tok_opt(tdt)} {tok_num(x)} {tok_num(ru)} {tok_num(rel)}", births_prob(b),
+        add(f"number births {tok_unit(tu)} {tok_opt(tdt)} {tok_unit(sim.t.unit)} {tok_opt(sim.t.dt)} {tok_num(x)} {tok_num(ru)} {tok_num(rel)}", births_prob(b),
             'Births.get_births (number rate)', dict(kind='births', form='number', x=x, **cfg))
         # --- deaths
         try:
@@ -155,10 +155,10 @@ def correspond(ctx):
             ctx.count('cfg_rejected_' + type(e).__name__); continue
         tu, tdt = d.t.unit, d.t.dt
         p = ss.Deaths.make_death_prob_fn(d, sim, sim.people.auids)
-        add(f"timepar deaths {tok_unit(tu)} {tok_opt(tdt)} {tok_num(ru)} {tok_num(rel)} {tp_tokens(observe(d.death_rate_data))}", p,
+        add(f"timepar deaths {tok_unit(tu)} {tok_opt(tdt)} {tok_unit(sim.t.unit)} {tok_opt(sim.t.dt)} {tok_num(ru)} {tok_num(rel)} {tp_tokens(observe(d.death_rate_data))}", p,
             'Deaths.make_death_prob_fn (TimePar rate)', dict(kind='deaths', form='timepar', **cfg))
         d.death_rate_data = x
-        add(f"number deaths {tok_unit(tu)} {tok_opt(tdt)} {tok_num(x)} {tok_num(ru)} {tok_num(rel)}", ss.Deaths.make_death_prob_fn(d, sim, sim.people.auids),
+        add(f"number deaths {tok_unit(tu)} {tok_opt(tdt)} {tok_unit(sim.t.unit)} {tok_opt(sim.t.dt)} {tok_num(x)} {tok_num(ru)} {tok_num(rel)}", ss.Deaths.make_death_prob_fn(d, sim, sim.people.auids),
             'Deaths.make_death_prob_fn (number rate)', dict(kind='deaths', form='number', x=x, **cfg))
         # --- deaths, table form
         try:
@@ -175,7 +175,7 @@ def correspond(ctx):
             ages = np.array(ppl.age[ppl.auids]); fem = np.array(ppl.female[ppl.auids])
             pick = rng.sample(range(len(ages)), min(8, len(ages)))
             li = len(lines); lines.append(f"nearest {','.join(tok_num(y) for y in years)} {tok_num(now)}")
-            table_checks.append(dict(li=li, years=years, drd=drd, agents=[], tu=tu, tdt=tdt, ru=ru, rel=rel, cfg=cfg, df=df.to_dict(orient='list')))
+            table_checks.append(dict(li=li, years=years, drd=drd, agents=[], tu=tu, tdt=tdt, su=sim.t.unit, sdt=sim.t.dt, ru=ru, rel=rel, cfg=cfg, df=df.to_dict(orient='list')))
             for k in pick:
                 la = len(lines); lines.append(f"agebin {','.join(tok_num(b_) for b_ in bins)} {tok_num(ages[k])}")
                 table_checks[-1]['agents'].append(dict(la=la, age=float(ages[k]), sex='f' if fem[k] else 'm', p=float(probs[k])))
@@ -192,7 +192,7 @@ def correspond(ctx):
             pr = ss.Pregnancy.make_fertility_prob_fn(pg, sim, uids)
             ages = np.array(ppl.age[uids]); fec = np.array(pg.fecund[uids])
             for k in rng.sample(range(len(uids)), min(6, len(uids))):
-                add(f"fert {tok_unit(pg.t.unit)} {tok_opt(pg.t.dt)} {tok_num(fr_)} {tok_num(ru)} {tok_num(rel)} {tok_num(ages[k])} "
+                add(f"fert {tok_unit(pg.t.unit)} {tok_opt(pg.t.dt)} {tok_unit(sim.t.unit)} {tok_opt(sim.t.dt)} {tok_num(fr_)} {tok_num(ru)} {tok_num(rel)} {tok_num(ages[k])} "
                     f"{tok_num(pg.pars.min_age)} {tok_num(pg.pars.max_age)} {int(fec[k])}", pr[k],
                     'Pregnancy.make_fertility_prob_fn (number rate)', dict(kind='fertility', age=float(ages[k]), fecund=bool(fec[k]), x=fr_, **cfg), rel=2.0 ** -21)
         except Exception as e:
@@ -251,7 +251,7 @@ def correspond(ctx):
             row = tc['drd'].loc[year, ag['sex']]
             rate = float(np.asarray(row.values).ravel()[bi])
             idx.append((len(lines2), tc, ag, year, bi, rate))
-            lines2.append(f"number deaths {tok_unit(tc['tu'])} {tok_opt(tc['tdt'])} {tok_num(rate)} {tok_num(tc['ru'])} {tok_num(tc['rel'])}")
+            lines2.append(f"number deaths {tok_unit(tc['tu'])} {tok_opt(tc['tdt'])} {tok_unit(tc['su'])} {tok_opt(tc['sdt'])} {tok_num(rate)} {tok_num(tc['ru'])} {tok_num(tc['rel'])}")
     out2 = drive(ctx, lines2) if lines2 else []
     for li, tc, ag, year, bi, rate in idx:
         m = model_prob(out2[li])
@@ -264,6 +264,12 @@ def correspond(ctx):
 
 
 table_checks = []
+
+
+def correspond(ctx):
+    correspond_round1(ctx)
+    from harness.props import c16_round2 as r2
+    r2.correspond(ctx, sys.modules[__name__])
 
 
 def delivery_prob(su, sdt, dur, P):
@@ -341,6 +347,10 @@ def o_table(a):
     df = pd.DataFrame(a['table'])
     sim, d = build('deaths', su, sdt, dur, a['mod'], df, dict(rate_units=ru, rel_death=rel))
     ppl = sim.people
+    if a.get('ti') is not None:
+        if a['ti'] >= d.t.npts: return []
+        from harness.props import c16_round2 as r2
+        r2.set_ti(sim, d, a['ti'])
     probs = np.asarray(ss.Deaths.make_death_prob_fn(d, sim, ppl.auids), dtype=float)
     ages = np.array(ppl.age[ppl.auids], dtype=float); fem = np.array(ppl.female[ppl.auids])
     now = float(sim.t.now('year'))
@@ -428,6 +438,16 @@ def o_events(a):
 ORACLES = dict(hazard=o_hazard, table=o_table, fertility=o_fertility, coverage=o_coverage, ageing=o_ageing, net_beta=o_net_beta, events=o_events)
 
 
+def _r2(name):
+    def f(a):
+        from harness.props import c16_round2 as r2
+        return r2.ORACLES[name](a, sys.modules[__name__])
+    return f
+
+
+ORACLES.update({k: _r2(k) for k in ('births_series', 'deaths_times', 'fert_table', 'coverage_years', 'disease_pars', 'disease_durations', 'edges')})
+
+
 def run_oracle(ctx, name, args):
     try:
         fails = ORACLES[name](args)
@@ -459,6 +479,8 @@ def search(ctx):
         run_oracle(ctx, 'ageing', dict(sim=[su, sdt, dur], steps=min(steps, 400)))
     for su, sdt, dur in [('year', 1.0, 3), ('year', 0.5, 3), ('year', 0.1, 2)] + ([('day', 1, 100), ('week', 1, 30)] if ctx.thorough or ctx.broken else []):
         run_oracle(ctx, 'net_beta', dict(sim=[su, sdt, dur], beta=rng.choice([0.1, 0.05, 0.5])))
+    from harness.props import c16_round2 as r2
+    r2.search(ctx, sys.modules[__name__], run_oracle)
     run_oracle(ctx, 'events', dict(kind='births', dts=[1.0, 0.5, 0.2], seed=rng.randint(1, 10 ** 6)))
     run_oracle(ctx, 'events', dict(kind='deaths', dts=[0.5], seed=rng.randint(1, 10 ** 6)))
     for k in ctx.known:
